@@ -783,6 +783,11 @@ fn c13_rt128_body(bank: u8, paged: u8, off: usize, hi: u8, latch0: u8) {
     cpu(&mut s).regs.set_iff1(iff1);
     controller(&mut s).frame_clocks = fc;
     controller(&mut s).write_7ffd(latch);
+    if latch & 0x20 != 0 {
+        // paging is locked: whatever the program writes to the latch afterwards is ignored by the hardware
+        // and must leave no trace in the snapshot either
+        controller(&mut s).write_7ffd(kani::any());
+    }
     set_ram_byte(&mut s, bank, off, wv);
     // the saver may be waiting in HALT: the file holds the PC of the HALT opcode (see c13_save48_rec)
     let was_halted: bool = kani::any();
